@@ -11,15 +11,18 @@ TECH = "Lean 4 theorems over a model tied to the source by generated facts and d
 # property -> (level text, level note)
 CLAIMED = {
     "C01": (
-        "proof (partial): completeness/termination of the multi-root GETNEXT walk proved for every sorted database and "
-        "disjoint roots on the abstract (root,cursor) loop, single-root order by takeWhile characterisation; the "
-        "Python-faithful Lean model is tied to the code by end-to-end trace correspondence (small scope + random, v2c/v3)",
-        "refinement faithful model -> abstract loop is sampled, not yet proved; conformant agent semantics are spec-side definitions",
+        "proof (partial): on the Python-faithful model and for ANY agent: the multi-root GETNEXT walk yields only OIDs "
+        "inside a requested root, no OID twice, and is independent of the listing order of the roots; completeness / "
+        "termination / order proved for every sorted database and disjoint roots on the abstract (root,cursor) loop; "
+        "the faithful model is tied to the code by end-to-end trace correspondence (small scope + random, v2c/v3)",
+        "completeness is proved on the abstract loop only: its refinement from the faithful model is sampled; conformant agent semantics are spec-side definitions",
     ),
     "C02": (
-        "proof (partial): GETBULK bound = N+M*R proved over the generated expression; bulk walk traces of the faithful Lean "
-        "model correspond to the implementation for sizes x truncation policies; oracle = equality with the GETNEXT walk",
-        "column/successor-chain theorem for the bulk fetcher not yet proved; truncation policies keep >= 1 full repetition",
+        "proof (partial): GETBULK bound = N+M*R proved over the generated expression; on the faithful model and for ANY "
+        "agent: the bulk walk yields nothing outside the roots and nothing twice, is order-independent, and with one "
+        "repetition per request IS the GETNEXT walk (fetcher equality); bulk walk traces correspond to the implementation "
+        "for sizes x truncation policies; oracle = equality with the GETNEXT walk",
+        "equality with the GETNEXT walk for repetition counts > 1 is checked by the oracle and correspondence, not proved; truncation policies keep >= 1 full repetition",
     ),
     "C03": (
         "proof (partial): fetcher-level progress (any accepted response advances every column) and the ending prescribed for "
